@@ -785,6 +785,11 @@ func VerifNewWorld(op string) (*VerifWorld, string) {
 		cfg.DHTPort = 0
 		cfg.DHTBootstrapNodes = nil
 	}
+	// The two minimum announce intervals are independent options with the same default. The harness's trackers
+	// answer `interval 1800` and never give peers, so a torrent keeps asking for more: the next regular announce
+	// is due after the TRACKER minimum (a minute: never inside a case). The DHT minimum is made tiny, so that a
+	// tracker announcer paced by the wrong option shows up as regular announces within a case.
+	cfg.DHTMinAnnounceInterval = 40 * time.Millisecond
 	cfg.PEXEnabled = m["pex"] != "0"
 	cfg.CustomStorage = w.sto
 	cfg.ResumeOnStartup = false
